@@ -117,10 +117,16 @@ EchoVerdict(G, root, out) ==
       [] out[1] = "argerr" -> FwdVerdict(G, root, <<"err">>)
       [] OTHER -> FwdVerdict(G, root, <<"crash">>)
 
+(* the argument is not observable: the record must match Fill, read with the enabled deviations *)
 Echo0Verdict(G, root, out) ==
-    LET e == Fill(G, root, NoOpts)
-    IN IF out[1] = "ok0" THEN (IF e.ok THEN RetVerdict(e.st.objs, out[2]) ELSE "bad")
-       ELSE IF out[1] = "err0" THEN (IF ~e.ok THEN "ok" ELSE RetErrVerdict(e.st.objs))
+    LET e0 == Fill(G, root, NoOpts)
+        cands == {i \in 1..3 : OptOn(i) /\ Fill(G, root, OptSets[i]).ok}
+    IN IF out[1] = "ok0"
+       THEN (IF e0.ok THEN RetVerdict(e0.st.objs, out[2])
+             ELSE IF \E i \in cands : RetVerdict(Fill(G, root, OptSets[i]).st.objs, out[2]) # "bad"
+             THEN "known:" \o OptName(CHOOSE i \in cands : RetVerdict(Fill(G, root, OptSets[i]).st.objs, out[2]) # "bad")
+             ELSE "bad")
+       ELSE IF out[1] = "err0" THEN (IF ~e0.ok THEN "ok" ELSE RetErrVerdict(e0.st.objs))
        ELSE FwdVerdict(G, root, <<"crash">>)
 
 RECURSIVE Fold(_, _, _, _)
